@@ -27,6 +27,174 @@ fn tick(c: &AtomicU64, t0: Instant) {
     c.fetch_add(t0.elapsed().as_micros() as u64, Ordering::Relaxed);
 }
 
+// ------------------------------------------------------------------ generic crash points: EVERY file-system effect
+/// The rip_verif hook points name the crash boundaries somebody thought of.  An effect ADDED to a write path later
+/// (an unlink before a rename, a second write, a truncate) has no hook point next to it.  So this binary also
+/// DEFINES the libc entry points std's file-system calls end in (open / open64 / openat64 with O_CREAT|O_TRUNC,
+/// write, writev, rename, unlink, unlinkat, mkdir, ftruncate64): std is linked statically into the binary, so the
+/// linker binds its calls to these definitions, which forward to the kernel through `syscall(2)`.  While a
+/// workload's capability call runs on the current thread (`arm`), every such effect on a path under the live store
+/// is a crash boundary: when at least one effect happened since the last snapshot (hook point or effect), the
+/// store is snapshotted BEFORE the effect is issued (= the process died between the previous effect and this one).
+/// Boundaries that a hook point already covers are not snapshotted twice.
+mod fsx {
+    use libc::{c_char, c_int, c_void, mode_t, off_t, size_t, ssize_t};
+    use std::cell::{Cell, RefCell};
+    use std::ffi::CStr;
+
+    thread_local! {
+        static ARMED: Cell<bool> = const { Cell::new(false) };
+        /// effects on the live store since the last snapshot
+        static EFFECTS: Cell<u32> = const { Cell::new(0) };
+        static ROOT: RefCell<Vec<u8>> = const { RefCell::new(Vec::new()) };
+    }
+    /// takes the snapshot: (name of the crash point, path of the effect about to be issued, relative to the root)
+    pub static HANDLER: std::sync::OnceLock<Box<dyn Fn(&'static str, String) + Send + Sync>> = std::sync::OnceLock::new();
+    pub static SEEN: std::sync::atomic::AtomicU64 = std::sync::atomic::AtomicU64::new(0);
+
+    pub fn set_root(root: &std::path::Path) {
+        use std::os::unix::ffi::OsStrExt;
+        ROOT.with(|r| *r.borrow_mut() = root.as_os_str().as_bytes().to_vec());
+    }
+    /// arm(true) at the start of a capability call (the disk equals the previous `op.returned` snapshot)
+    pub fn arm(on: bool) {
+        ARMED.with(|a| a.set(on));
+        if on {
+            EFFECTS.with(|e| e.set(0));
+        }
+    }
+    pub fn armed() -> bool {
+        ARMED.with(|a| a.get())
+    }
+
+    fn fd_path(fd: c_int) -> Vec<u8> {
+        let link = format!("/proc/self/fd/{fd}\0");
+        let mut buf = vec![0u8; 4096];
+        let n = unsafe { libc::readlink(link.as_ptr() as *const c_char, buf.as_mut_ptr() as *mut c_char, buf.len()) };
+        if n <= 0 {
+            return vec![];
+        }
+        buf.truncate(n as usize);
+        buf
+    }
+    fn at_path(dirfd: c_int, path: *const c_char) -> Vec<u8> {
+        let p = unsafe { CStr::from_ptr(path) }.to_bytes().to_vec();
+        if p.first() == Some(&b'/') || dirfd == libc::AT_FDCWD {
+            return p;
+        }
+        let mut d = fd_path(dirfd);
+        d.push(b'/');
+        d.extend_from_slice(&p);
+        d
+    }
+    /// called before the effect `name` on `path` is issued; true = the path is under the live store
+    fn boundary(name: &'static str, path: &[u8]) -> bool {
+        let rel = ROOT.with(|r| {
+            let r = r.borrow();
+            if !r.is_empty() && path.len() > r.len() && path.starts_with(&r) && path[r.len()] == b'/' {
+                Some(String::from_utf8_lossy(&path[r.len() + 1..]).to_string())
+            } else {
+                None
+            }
+        });
+        let Some(rel) = rel else { return false };
+        SEEN.fetch_add(1, std::sync::atomic::Ordering::Relaxed);
+        if EFFECTS.with(|e| e.get()) > 0 {
+            if let Some(h) = HANDLER.get() {
+                ARMED.with(|a| a.set(false));
+                h(name, rel);
+                ARMED.with(|a| a.set(true));
+            }
+            EFFECTS.with(|e| e.set(0));
+        }
+        true
+    }
+    /// the effect was issued: it counts when it succeeded (a mkdir of an existing directory changes nothing)
+    fn done(under: bool, ok: bool) {
+        if under && ok {
+            EFFECTS.with(|e| e.set(e.get() + 1));
+        }
+    }
+    fn cpath(p: *const c_char) -> Vec<u8> {
+        unsafe { CStr::from_ptr(p) }.to_bytes().to_vec()
+    }
+    const CREATING: c_int = libc::O_CREAT | libc::O_TRUNC;
+
+    #[no_mangle]
+    pub unsafe extern "C" fn open64(path: *const c_char, flags: c_int, mode: mode_t) -> c_int {
+        // an effect when it truncates, or creates a file that is not there
+        let under = armed() && flags & CREATING != 0 && (flags & libc::O_TRUNC != 0 || libc::access(path, libc::F_OK) != 0) && boundary("fs.before.open_create", &cpath(path));
+        let r = libc::syscall(libc::SYS_open, path, flags, mode as c_int) as c_int;
+        done(under, r >= 0);
+        r
+    }
+    #[no_mangle]
+    pub unsafe extern "C" fn open(path: *const c_char, flags: c_int, mode: mode_t) -> c_int {
+        // an effect when it truncates, or creates a file that is not there
+        let under = armed() && flags & CREATING != 0 && (flags & libc::O_TRUNC != 0 || libc::access(path, libc::F_OK) != 0) && boundary("fs.before.open_create", &cpath(path));
+        let r = libc::syscall(libc::SYS_open, path, flags, mode as c_int) as c_int;
+        done(under, r >= 0);
+        r
+    }
+    #[no_mangle]
+    pub unsafe extern "C" fn openat64(dirfd: c_int, path: *const c_char, flags: c_int, mode: mode_t) -> c_int {
+        // an effect when it truncates, or creates a file that is not there
+        let under = armed() && flags & CREATING != 0 && (flags & libc::O_TRUNC != 0 || libc::faccessat(dirfd, path, libc::F_OK, 0) != 0) && boundary("fs.before.open_create", &at_path(dirfd, path));
+        let r = libc::syscall(libc::SYS_openat, dirfd, path, flags, mode as c_int) as c_int;
+        done(under, r >= 0);
+        r
+    }
+    #[no_mangle]
+    pub unsafe extern "C" fn write(fd: c_int, buf: *const c_void, n: size_t) -> ssize_t {
+        let under = armed() && fd > 2 && boundary("fs.before.write", &fd_path(fd));
+        let r = libc::syscall(libc::SYS_write, fd, buf, n) as ssize_t;
+        done(under, r > 0);
+        r
+    }
+    #[no_mangle]
+    pub unsafe extern "C" fn writev(fd: c_int, iov: *const libc::iovec, n: c_int) -> ssize_t {
+        let under = armed() && fd > 2 && boundary("fs.before.writev", &fd_path(fd));
+        let r = libc::syscall(libc::SYS_writev, fd, iov, n) as ssize_t;
+        done(under, r > 0);
+        r
+    }
+    #[no_mangle]
+    pub unsafe extern "C" fn ftruncate64(fd: c_int, len: off_t) -> c_int {
+        let under = armed() && boundary("fs.before.ftruncate", &fd_path(fd));
+        let r = libc::syscall(libc::SYS_ftruncate, fd, len) as c_int;
+        done(under, r >= 0);
+        r
+    }
+    #[no_mangle]
+    pub unsafe extern "C" fn rename(old: *const c_char, new: *const c_char) -> c_int {
+        let under = armed() && boundary("fs.before.rename", &cpath(new));
+        let r = libc::syscall(libc::SYS_rename, old, new) as c_int;
+        done(under, r >= 0);
+        r
+    }
+    #[no_mangle]
+    pub unsafe extern "C" fn unlink(path: *const c_char) -> c_int {
+        let under = armed() && boundary("fs.before.unlink", &cpath(path));
+        let r = libc::syscall(libc::SYS_unlink, path) as c_int;
+        done(under, r >= 0);
+        r
+    }
+    #[no_mangle]
+    pub unsafe extern "C" fn unlinkat(dirfd: c_int, path: *const c_char, flags: c_int) -> c_int {
+        let under = armed() && boundary("fs.before.unlink", &at_path(dirfd, path));
+        let r = libc::syscall(libc::SYS_unlinkat, dirfd, path, flags) as c_int;
+        done(under, r >= 0);
+        r
+    }
+    #[no_mangle]
+    pub unsafe extern "C" fn mkdir(path: *const c_char, mode: mode_t) -> c_int {
+        let under = armed() && boundary("fs.before.mkdir", &cpath(path));
+        let r = libc::syscall(libc::SYS_mkdir, path, mode as c_int) as c_int;
+        done(under, r >= 0);
+        r
+    }
+}
+
 // ------------------------------------------------------------------ copies of a store
 /// How a copy of a store is made.  `Full`: byte copy of everything (a crash-point snapshot that will be
 /// restarted and written to).  `ReadsAsFound` / `ReadsNoCaches`: a private tree for read-only capability
@@ -586,9 +754,26 @@ fn model_op(op: &Op, lens: &[u64], new_thread: u64) -> MOp {
 }
 
 // ------------------------------------------------------------------ one workload with crash points
+/// What had been acknowledged about the thread index (continuities/index.json) when the process died.
+#[derive(Clone, Default)]
+struct IdxAck {
+    /// index.json existed when the in-flight call started (it is only ever replaced: it must still exist and parse)
+    existed: bool,
+    /// the default thread an acknowledged ensure_default returned
+    default: Option<String>,
+}
+fn index_json_path(root: &Path) -> PathBuf {
+    data_dir(root).join("continuities").join("index.json")
+}
+
 struct Snap {
     name: &'static str,
     dir: PathBuf,
+    /// the last rip_verif hook point reached before this snapshot in the same call (= `name` for a hook point):
+    /// the window a generic `fs.before.*` crash point lies in
+    after: &'static str,
+    /// generic crash point: the path (relative to the store) of the effect that was about to be issued
+    detail: String,
 }
 
 struct OpRec {
@@ -649,6 +834,8 @@ struct RecCtx {
     root: PathBuf,
     scratch: PathBuf,
     snaps: Vec<Snap>,
+    last_hook: &'static str,
+    nfs: usize,
 }
 thread_local! {
     static REC: std::cell::RefCell<Option<RecCtx>> = const { std::cell::RefCell::new(None) };
@@ -656,6 +843,8 @@ thread_local! {
 fn install_recorder() {
     CrashRec::install(move |name, k| {
         CrashRec::arm(false);
+        let was = fsx::armed();
+        fsx::arm(false);
         REC.with(|c| {
             if let Some(ctx) = c.borrow_mut().as_mut() {
                 let dir = ctx.scratch.join(format!("snap-{k}"));
@@ -663,18 +852,43 @@ fn install_recorder() {
                 let t0 = Instant::now();
                 copy_store(&ctx.root, &dir, CopyMode::Full).expect("snapshot copy");
                 tick(&T_SNAP, t0);
-                ctx.snaps.push(Snap { name, dir });
+                ctx.last_hook = name;
+                ctx.snaps.push(Snap { name, dir, after: name, detail: String::new() });
             }
         });
+        if was {
+            fsx::arm(true); // (also: no effect since this snapshot)
+        }
         CrashRec::arm(true);
     });
+    // generic crash points (fsx): the store as it is right before an effect that follows another effect with no
+    // hook point in between
+    let _ = fsx::HANDLER.set(Box::new(|name, rel| {
+        REC.with(|c| {
+            if let Some(ctx) = c.borrow_mut().as_mut() {
+                let dir = ctx.scratch.join(format!("snap-fs-{}", ctx.nfs));
+                ctx.nfs += 1;
+                let _ = std::fs::remove_dir_all(&dir);
+                let t0 = Instant::now();
+                copy_store(&ctx.root, &dir, CopyMode::Full).expect("snapshot copy");
+                tick(&T_SNAP, t0);
+                ctx.snaps.push(Snap { name, dir, after: ctx.last_hook, detail: rel });
+            }
+        });
+    }));
+}
+/// arm / disarm both recorders around a capability call of a workload
+fn arm_all(on: bool) {
+    CrashRec::arm(on);
+    fsx::arm(on);
 }
 fn run_workload(ops: &[Op], scratch: &Path, wl_json: serde_json::Value, with_model: bool, bulk: bool, bumps: &mut Vec<String>) -> Vec<CaseOut> {
     std::fs::create_dir_all(scratch).expect("scratch");
     let root = scratch.join("live");
     let _ = std::fs::remove_dir_all(&root);
     let mut w = World::open(&root, vec![], BTreeMap::new(), vec![]);
-    REC.with(|c| *c.borrow_mut() = Some(RecCtx { root: root.clone(), scratch: scratch.to_path_buf(), snaps: vec![] }));
+    REC.with(|c| *c.borrow_mut() = Some(RecCtx { root: root.clone(), scratch: scratch.to_path_buf(), snaps: vec![], last_hook: "op.start", nfs: 0 }));
+    fsx::set_root(&root);
     let mut fids: HashMap<String, u64> = HashMap::new();
     let mut recs: Vec<OpRec> = vec![];
     let mut acked: Vec<String> = vec![]; // frame ids of ops that returned Ok
@@ -686,9 +900,12 @@ fn run_workload(ops: &[Op], scratch: &Path, wl_json: serde_json::Value, with_mod
         }
         let before = truth_len(&root);
         let threads_before = w.threads.len();
-        CrashRec::arm(true);
+        let idx_before = IdxAck { existed: index_json_path(&root).exists(), default: w.ensured.clone() };
+        REC.with(|c| c.borrow_mut().as_mut().unwrap().last_hook = "op.start");
+        arm_all(true);
         let r = w.exec(op);
-        CrashRec::arm(false);
+        arm_all(false);
+        let idx_after = IdxAck { existed: index_json_path(&root).exists(), default: if r.is_ok() { w.ensured.clone() } else { idx_before.default.clone() } };
         let frames = diff_frames(&root, before);
         for (j, b) in frames.iter().enumerate() {
             fids.insert(b.id.clone(), 4 * i as u64 + j as u64);
@@ -709,7 +926,7 @@ fn run_workload(ops: &[Op], scratch: &Path, wl_json: serde_json::Value, with_mod
             let t0 = Instant::now();
             copy_store(&root, &dir, CopyMode::Full).expect("snapshot copy");
             tick(&T_SNAP, t0);
-            mine.push((Snap { name: "op.returned", dir }, w.threads.len()));
+            mine.push((Snap { name: "op.returned", dir, after: "op.returned", detail: String::new() }, w.threads.len()));
         }
         let mut acked_now = acked.clone();
         if r.is_ok() {
@@ -735,12 +952,13 @@ fn run_workload(ops: &[Op], scratch: &Path, wl_json: serde_json::Value, with_mod
             }
             let modelled = point_code(s.name) != 0;
             let acks = if s.name == "op.returned" { &acked_now } else { &acked };
-            let c = analyse(&s, &root, i, point_ordinal, &w, &recs, acks, &fids, ops, scratch, &wl_json, with_model && modelled, threads_acked, false);
+            let idx = if s.name == "op.returned" { idx_after.clone() } else { idx_before.clone() };
+            let c = analyse(&s, &root, i, point_ordinal, &w, &recs, acks, &fids, ops, scratch, &wl_json, with_model && modelled, threads_acked, false, &idx);
             out.push(c);
             let _ = std::fs::remove_dir_all(&root);
             if bulk {
                 std::fs::rename(&second, &root).expect("move second snapshot in");
-                let c = analyse(&s, &root, i, point_ordinal, &w, &recs, acks, &fids, ops, scratch, &wl_json, with_model && modelled, threads_acked, true);
+                let c = analyse(&s, &root, i, point_ordinal, &w, &recs, acks, &fids, ops, scratch, &wl_json, with_model && modelled, threads_acked, true, &idx);
                 out.push(c);
                 let _ = std::fs::remove_dir_all(&root);
             }
@@ -773,8 +991,11 @@ fn analyse(
     with_model: bool,
     threads_acked: usize,
     bulk: bool,
+    idx: &IdxAck,
 ) -> CaseOut {
     let mut violations: Vec<(String, String)> = vec![];
+    // the window of hook points a generic crash point lies in (classification of the known cache findings)
+    let win: &str = if s.name.starts_with("fs.") { s.after } else { s.name };
     let threads0 = w.threads.clone();
     let nthreads0 = threads0.len();
     let mut fids = fids.clone();
@@ -795,7 +1016,7 @@ fn analyse(
         let n = truth_snap.iter().flatten().filter(|b| b.continuity && b.stream == *x).count();
         let sp = side_path(root, x);
         let m = read_bodies(&sp).iter().flatten().count();
-        sp.exists() && m >= 1 && n == m + 1 && matches!(s.name, "log.body_written" | "log.nl_written" | "log.flushed" | "cont.logged" | "cache.side.opened" | "cache.side.body" | "cache.side.nl")
+        sp.exists() && m >= 1 && n == m + 1 && matches!(win, "log.body_written" | "log.nl_written" | "log.flushed" | "cont.logged" | "cache.side.opened" | "cache.side.body" | "cache.side.nl")
     });
     let torn_at_snap = std::fs::read(truth_path(root)).map(|b| !b.is_empty() && *b.last().unwrap() != b'\n').unwrap_or(false);
     // class of a numbering / duplicate / replay violation
@@ -813,6 +1034,30 @@ fn analyse(
     if !miss.is_empty() {
         violations.push((format!("after a crash at {} (op {op_index}) the log holds frame(s) naming {} artifact(s) that are not on disk (first {})", s.name, miss.len(), miss[0]), "frame_references_missing_artifact".into()));
     }
+    // ---- the thread index: temp + rename means a crash leaves the old or the new index.json, never none / half a
+    // file; every thread whose creation had been acknowledged is still listed by a restarted store
+    {
+        let p = index_json_path(root);
+        let parsed = std::fs::read(&p).ok().map(|b| serde_json::from_slice::<serde_json::Value>(&b).is_ok());
+        match parsed {
+            None if idx.existed => violations.push((
+                format!("after a crash at {} (op {op_index}, after {}, before the effect on {:?}) continuities/index.json is gone: it existed before the call", s.name, s.after, s.detail),
+                "index_json_lost_by_crash".into(),
+            )),
+            Some(false) => violations.push((format!("after a crash at {} (op {op_index}) continuities/index.json does not parse", s.name), "index_json_torn_by_crash".into())),
+            _ => {}
+        }
+        let log = Arc::new(EventLog::new(truth_path(root)).expect("log"));
+        let store = ContinuityStore::new(data_dir(root), ws_dir(root), log).expect("store");
+        let listed: Vec<String> = store.list().into_iter().map(|m| m.continuity_id).collect();
+        let lost: Vec<usize> = (0..threads_acked.min(threads0.len())).filter(|t| !listed.contains(&threads0[*t]) || store.get(&threads0[*t]).is_none()).collect();
+        if !lost.is_empty() {
+            violations.push((
+                format!("after a crash at {} (op {op_index}, after {}) and restart, list() / get() no longer know thread(s) {:?} whose creation had been acknowledged ({} listed)", s.name, s.after, lost, listed.len()),
+                "acked_thread_not_listed_after_restart".into(),
+            ));
+        }
+    }
     // ---- reads on the recovered store before any further write
     // (the bulk variant restarts the same on-disk state: its first reads would repeat those of the plain variant)
     let r0 = if bulk { Ok(None) } else { reads_differ(root, &threads0, scratch, "r0", false) };
@@ -822,7 +1067,7 @@ fn analyse(
     if let Ok(Some(d)) = r0 {
         let stream: Vec<String> = d.strip_prefix("thread#").and_then(|r| r.split(' ').next()).and_then(|n| n.parse::<usize>().ok()).and_then(|i| threads0.get(i).cloned()).into_iter().collect();
         let class = match stream.first() {
-            Some(id) => classify_cache_state(root, id, s.name, "reads_differ_after_restart"),
+            Some(id) => classify_cache_state(root, id, win, "reads_differ_after_restart"),
             None => "reads_differ_after_restart".into(),
         };
         violations.push((format!("after restart at {} (op {op_index}): {d}", s.name), class));
@@ -852,6 +1097,20 @@ fn analyse(
             Op::Msg { t, .. } => *t < threads_acked || w2.ensured.as_deref() == Some(w2.tid(*t).as_str()),
             _ => false,
         };
+        if let (Op::Ensure, Ok(()), Some(d)) = (op, &r, &idx.default) {
+            if w2.ensured.as_ref() != Some(d) {
+                violations.push((
+                    format!(
+                        "after a crash at {} (op {op_index}, after {}) and restart ensure_default returns thread {:?}, the acknowledged default was thread {:?}",
+                        s.name,
+                        s.after,
+                        w2.ensured.as_ref().and_then(|x| w2.threads.iter().position(|t| t == x)),
+                        threads0.iter().position(|t| t == d)
+                    ),
+                    "default_thread_changed_after_crash".into(),
+                ));
+            }
+        }
         if must_succeed && r.is_err() {
             violations.push((
                 format!("after a crash at {} (op {op_index}) and restart the follow-up {:?} was refused: {}", s.name, op, r.as_ref().err().unwrap()),
@@ -953,7 +1212,7 @@ fn analyse(
     if let Ok(Some(d)) = r1 {
         let stream: Vec<String> = d.strip_prefix("thread#").and_then(|r| r.split(' ').next()).and_then(|n| n.parse::<usize>().ok()).and_then(|i| threads1.get(i).cloned()).into_iter().collect();
         let class = match stream.first() {
-            Some(id) => classify_cache_state(root, id, s.name, "reads_differ_after_followups"),
+            Some(id) => classify_cache_state(root, id, win, "reads_differ_after_followups"),
             None => "reads_differ_after_followups".into(),
         };
         violations.push((format!("after crash at {} (op {op_index}), restart and follow-ups: {d}", s.name), class));
@@ -977,7 +1236,7 @@ fn analyse(
     } else {
         String::new()
     };
-    let cj = json!({"workload": wl_json, "crash_op": op_index, "crash_point": s.name, "point_ordinal": point_ordinal, "bulk_first": bulk,
+    let cj = json!({"workload": wl_json, "crash_op": op_index, "crash_point": s.name, "after_point": s.after, "before_effect_on": s.detail, "point_ordinal": point_ordinal, "bulk_first": bulk,
         "followups": more.iter().map(op_json).collect::<Vec<_>>(), "followup_ok": more_recs.iter().map(|r| r.ok).collect::<Vec<_>>(),
         "replay_validated_ok": replay.is_ok()});
     CaseOut { term, json: cj, violations, tag: format!("{}@{:?}", s.name, ops[op_index]).chars().take(60).collect() }
